@@ -278,6 +278,96 @@ def gen_op(rng, world, state):
     return {"k": "update"}, f"{len(vaults)}-vaults"
 
 
+# ---------------------------------------------------------------------------------------------------------------- pool side (C01)
+def _pos_classes(state):
+    poss = [[int(a), int(b)] for (a, b), _ in state["positions"]]
+    pmap = {(int(a), int(b)): p for (a, b), p in state["positions"]}
+    free = [k for k in poss if not pmap[tuple(k)]["transferred"]]
+    lent = [k for k in poss if pmap[tuple(k)]["transferred"]]
+    return poss, pmap, free, lent
+
+
+def _pick_pos(rng, free, lent, w_free=0.62, w_lent=0.3):
+    """(position, class): a free one, a lent one (the pool must refuse to touch it), or one that does not exist"""
+    r = rng.random()
+    if free and (r < w_free or not lent and r < w_free + w_lent):
+        return rng.choice(free), "free"
+    if lent and r < w_free + w_lent:
+        return rng.choice(lent), "lent"
+    return [120, 180], "unknown"
+
+
+def gen_pool_op(rng, world, state, direct=False):
+    """one operation of the oSQTH/WETH UniLpMarket by the strategy: add_liquidity (new range / the range of a free position / the range of a
+    LENT position), remove_liquidity (all / part, collecting or not), collect_fee (all / capped), fee accrual; with `direct` also DIRECT calls of
+    the public transfer_position_out / transfer_position_in.  Returns (op, argument class)."""
+    poss, pmap, free, lent = _pos_classes(state)
+    kinds = ["uniAdd"] * 3 + ["uniRemove"] * 3 + ["uniCollect"] * 3 + ["uniAccrue"] * 2
+    if direct:
+        kinds += ["uniTransferOut"] * 3 + ["uniTransferIn"] * 3
+    k = rng.choice(kinds)
+    if not poss and k != "uniAdd" and rng.random() < 0.8:
+        k = "uniAdd"
+    if k == "uniAdd":
+        r = rng.random()
+        if r < 0.2 and free:
+            (lo, hi), pc = rng.choice(free), "free-range"
+        elif r < 0.4 and lent:
+            (lo, hi), pc = rng.choice(lent), "lent-range"
+        else:
+            t = tick_of(world, world.env["uniPrice"])
+            wdt = rng.choice([1, 2, 5, 20]) * SPACING
+            shape = rng.choice(["around", "around", "below", "above"])
+            lo, hi = {"around": (t - wdt, t + wdt), "below": (t - 2 * wdt - SPACING, t - SPACING), "above": (t + SPACING, t + 2 * wdt + SPACING)}[shape]
+            pc = "new-" + shape if [lo, hi] not in poss else ("free-range" if [lo, hi] in free else "lent-range")
+        bal_w = world.broker.get_token_balance(world.weth) if world.weth in world.broker.assets else D(0)
+        bal_o = world.broker.get_token_balance(world.osqth) if world.osqth in world.broker.assets else D(0)
+        ac = rng.choice(["part", "part", "part", "part", "all", "over", "zero", "negative"])
+        f = {"part": D(str(round(rng.uniform(0.03, 0.4), 4))), "all": D(1), "over": D(3), "zero": D(0), "negative": D("-0.1")}[ac]
+        base, quote = bal_o * f, bal_w * f
+        if ac == "over":
+            base, quote = base + 1, quote + 1
+        return {"k": k, "lo": int(lo), "hi": int(hi), "base": base, "quote": quote}, f"{pc}:{ac}"
+    pos, pc = _pick_pos(rng, free, lent)
+    if k == "uniRemove":
+        liq = int(pmap[tuple(pos)]["liquidity"]) if tuple(pos) in pmap else 10 ** 12
+        lc = rng.choice(["all", "all", "part", "part", "over", "zero", "negative"])
+        amount = {"all": None, "part": liq * rng.randint(1, 9) // 10, "over": liq * 2 + 1, "zero": 0, "negative": -5}[lc]
+        collect = rng.random() < 0.6
+        return {"k": k, "pos": pos, "liquidity": amount, "collect": collect}, f"{pc}:{lc}:{'collect' if collect else 'keep'}"
+    if k == "uniCollect":
+        p = pmap.get(tuple(pos), {"p0": D(1), "p1": D(1)})
+        cc = rng.choice(["all", "all", "capped", "capped", "zero-cap", "over-cap", "negative-cap"])
+        m0, m1 = {"all": (None, None), "capped": (D(p["p0"]) / 2, D(p["p1"]) / 3), "zero-cap": (D(0), D(0)), "over-cap": (D(p["p0"]) * 2 + 1, None),
+                  "negative-cap": (D(-1), None)}[cc]
+        return {"k": k, "pos": pos, "max0": m0, "max1": m1}, f"{pc}:{cc}"
+    if k == "uniAccrue":
+        if not poss:
+            return {"k": "update"}, "0-vaults"
+        pos = rng.choice(poss)
+        pc = "lent" if pmap[tuple(pos)]["transferred"] else "free"
+        return {"k": k, "pos": pos, "a0": dec(rng, 0, "0.05", 8), "a1": dec(rng, 0, "0.5", 8)}, pc
+    return {"k": k, "pos": pos}, pc                    # uniTransferOut / uniTransferIn
+
+
+LP_VAULT_KINDS = ("openMint", "depositUni", "withdrawUni", "liquidate", "update", "reduceDebt", "burnWithdraw", "deposit")
+
+
+def gen_lp_vault_op(rng, world, state):
+    """a vault operation for the interleaved stream: the mix of `gen_op` restricted to the vault side, with an LP position handed in as
+    collateral more often (a free one mostly; a lent or unknown one as gen_op already does)"""
+    for _ in range(8):
+        op, argc = gen_op(rng, world, state)
+        if op["k"] in LP_VAULT_KINDS:
+            break
+    if op["k"] == "openMint" and op.get("pos") is None and rng.random() < 0.5:
+        _, _, free, _ = _pos_classes(state)
+        if free:
+            op = dict(op, pos=rng.choice(free))
+            argc += "+lp"
+    return op, argc
+
+
 TRADE_CLASSES = ["part", "part", "part", "part", "all", "dust-over", "over", "zero", "negative", "tiny"]
 
 
@@ -334,7 +424,7 @@ def parse_env(e):
 
 def parse_op(o):
     r = dict(o)
-    for f in ("deposit", "mint", "eth", "burn", "withdraw", "byRate", "osqth"):
+    for f in ("deposit", "mint", "eth", "burn", "withdraw", "byRate", "osqth", "base", "quote", "max0", "max1", "a0", "a1"):
         if f in r and r[f] is not None:
             r[f] = D(str(r[f]))
     return r
